@@ -13,7 +13,7 @@ use microscpi::{Error, ErrorQueue, Interface, StaticErrorQueue};
 use crate::alloc::Harness;
 
 pub const IDN: &str = "SIM,MICROSCPI,0,1.0";
-pub static TEXTS: [&str; 4] = ["Custom error A", "Device-specific fault", "Overrange, channel 2", "x"];
+pub static TEXTS: [&str; 5] = ["Custom error A", "Device-specific fault", "Overrange, channel 2", "x", "relay \"K1\" stuck"];
 
 /// Error returned by FAIL handlers: `Custom(code, text)`, text chosen by code.
 pub fn custom_error(code: i16) -> Error {
@@ -26,7 +26,10 @@ pub fn custom_error(code: i16) -> Error {
         -224 => Error::IllegalParameterValue,
         -240 => Error::HardwareError,
         -400 => Error::QueryError,
-        _ => Error::Custom(code, TEXTS[(code as u16 % 4) as usize]),
+        // number 0 with an empty description: indistinguishable from "no error" in the
+        // answer, but it is an error that occurred and must be stored like any other
+        0 => Error::Custom(0, ""),
+        _ => Error::Custom(code, TEXTS[(code as u16 % 5) as usize]),
     }
 }
 
